@@ -43,7 +43,7 @@ def run(res):
     vh, exe = P.base(res, PROP)
     rng = random.Random(res.seed)
     cases = []   # (text, kind, expected line or None for "valid")
-    nprog = 120 if res.tier == "quick" else 1500
+    nprog = 120 if res.tier == "quick" else 6000
     # "an otherwise valid program": keep only generated bases that build
     cands = [valid_program(rng) for _ in range(nprog * 3)]
     pre = progrun.run_texts(vh, exe, ["\n".join(b) + "\n" for b in cands])
